@@ -261,7 +261,9 @@ def split_cases(cases_path, n, wd):
     def weight(l):
         if l.startswith("sweep "):
             try:
-                return 1 + int(l.split(" ")[3]) // 10
+                t = l.split(" ")
+                # the Time type costs about five times the others on the model side (big-number Int arithmetic)
+                return (1 + int(t[3]) // 10) * (5 if t[1] == "time" else 1)
             except Exception:
                 return 1
         return 1 + len(l) // 4000
